@@ -407,10 +407,12 @@ package rux
 //@     && (!strict && len(s) > 1 ==> at(s, len(s) - 1) != '/')
 //
 //@ func (*Router).formatPath [C11, C13]
+//@   defines result == fp(path, r.strictLastSlash)
 //@   ensures NF: NF(result, r.strictLastSlash)
 //@   ensures root: (path == "" || path == "/") ==> result == "/"
 //
 //@ func simpleFmtPath [C11, C13]
+//@   defines result == sfp(path)
 //@   ensures leading_slash: len(result) >= 1 && at(result, 0) == '/' && (len(result) > 1 ==> at(result, 1) != '/')
 
 // ---------------------------------------------------------------------------
@@ -486,3 +488,33 @@ package rux
 //@       && len(r.handlers) == old(len(r.handlers)) + len(middles)
 //@       && (forall i int :: 0 <= i && i < old(len(r.handlers)) ==> r.handlers[i] == old(r.handlers[i]))
 //@       && (forall i int :: 0 <= i && i < len(middles) ==> r.handlers[old(len(r.handlers)) + i] == old(middles[i]))
+
+// ---------------------------------------------------------------------------
+// Groups (C12, C04)
+//
+//
+// Rely on registration callbacks (R-reg): a callback acts on the router only through the exported
+// registration API; every such method keeps the group prefix, keeps the global middleware list and
+// only extends the group middleware list (Router.Use inside a group, nested Group calls restore).
+//@ functype (*Router).Group:register(self)
+//@   requires[C12] prefix_in_effect: r.currentGroupPrefix == entry(r.currentGroupPrefix) + fp(prefix, r.strictLastSlash)
+//@   requires[C12] middleware_in_effect: len(r.currentGroupHandlers) == entry(len(r.currentGroupHandlers)) + len(middles)
+//@       && (forall i int :: 0 <= i && i < entry(len(r.currentGroupHandlers)) ==> r.currentGroupHandlers[i] == entry(r.currentGroupHandlers[i]))
+//@       && (forall i int :: 0 <= i && i < len(middles) ==> r.currentGroupHandlers[entry(len(r.currentGroupHandlers)) + i] == middles[i])
+//@   modifies r.currentGroupHandlers, allelems([]HandlerFunc), allelems([]*Route), allelems([]string), allfields(Route), r.counter, r.cachedRoutes
+//@   modifies entries(r.stableRoutes), entries(r.regularRoutes), entries(r.irregularRoutes), entries(r.namedRoutes)
+//@   panics *
+//@   ensures r.handlers == old(r.handlers)
+//@   ensures forall a ref, j int :: allocated(a) && !(a == old(arr(r.currentGroupHandlers)) && j >= old(off(r.currentGroupHandlers) + len(r.currentGroupHandlers)))
+//@       ==> cell([]HandlerFunc, a, j) == old(cell([]HandlerFunc, a, j))
+//
+//@ spec disjointHF(a []HandlerFunc, b []HandlerFunc) bool = arr(a) != arr(b) || arr(a) == nil
+//@ func (*Router).Group [C12, C04]
+//@   requires lists_not_aliased: disjointHF(middles, r.currentGroupHandlers) && disjointHF(r.handlers, r.currentGroupHandlers) && disjointHF(r.handlers, middles)
+//@   modifies r.currentGroupPrefix, r.currentGroupHandlers, allelems([]HandlerFunc), allelems([]*Route), allelems([]string), allfields(Route), r.counter, r.cachedRoutes
+//@   modifies entries(r.stableRoutes), entries(r.regularRoutes), entries(r.irregularRoutes), entries(r.namedRoutes)
+//@   panics *
+//@   ensures prefix_restored: r.currentGroupPrefix == old(r.currentGroupPrefix)
+//@   ensures group_middleware_restored: r.currentGroupHandlers == old(r.currentGroupHandlers)
+//@       && (forall i int :: 0 <= i && i < len(r.currentGroupHandlers) ==> r.currentGroupHandlers[i] == old(r.currentGroupHandlers[i]))
+//@   ensures global_middleware_untouched: r.handlers == old(r.handlers) && (forall i int :: 0 <= i && i < len(r.handlers) ==> r.handlers[i] == old(r.handlers[i]))
